@@ -8,6 +8,7 @@ import (
 	"math/big"
 	"math/rand"
 	"regexp"
+	"sort"
 	"strings"
 	"time"
 
@@ -54,8 +55,6 @@ type randEnv struct {
 	accts    map[string]string
 }
 
-var seedRe = regexp.MustCompile(`"seed"\s*:\s*"([0-9a-fA-F]*)"`)
-
 func seedBytes(k int64) []byte {
 	s := sha256.Sum256([]byte(fmt.Sprintf("verif-seed-%d", k)))
 	return s[:]
@@ -79,6 +78,7 @@ func newRandEnv(fl *drv.Flags) *randEnv {
 	for _, p := range e.provs {
 		accts[p] = fmt.Sprintf("%d%s", 40, svcslice.Denom)
 	}
+	accts[e.users[0]] += ",100btc" // for fee caps named in another denomination
 	e.accts = accts
 	e.c = chain.New(chain.Options{
 		Accounts: accts,
@@ -111,18 +111,7 @@ func newRandEnv(fl *drv.Flags) *randEnv {
 // bindEnv attaches the service-slice projection to the current chain.
 func (e *randEnv) bindEnv() {
 	e.svc = svcslice.NewEnv(e.c, randomtypes.ServiceName, e.provs)
-	e.svc.RenderOutput = func(output string) (string, int64) {
-		m := seedRe.FindStringSubmatch(output)
-		if m == nil || len(m[1]) != 64 {
-			return "bad", 0
-		}
-		for k := int64(0); k < 8; k++ {
-			if strings.EqualFold(hex.EncodeToString(seedBytes(k)), m[1]) {
-				return "seed", k
-			}
-		}
-		return "seed", -1
-	}
+	e.svc.RenderOutput = renderSeedOutput
 }
 
 func (e *randEnv) accounts() []string { return append(append([]string{}, e.users...), e.provs...) }
@@ -187,19 +176,95 @@ func (e *randEnv) project(ctx sdk.Context) any {
 		return n
 	}
 
-	// pending queue: (due height, request id) -> request
+	// pending queue, read the way a user reads it: the module's gRPC query by height, for
+	// every height that has an entry in the raw store and a window around the current one,
+	// compared with the query for the whole queue and with the raw store (due | id ->
+	// request).  Where the three disagree the entry's id is marked, so that the clauses see
+	// an entry that is no request's entry.
 	pending := []any{}
+	type rawEnt struct {
+		due int64
+		kid string
+		m   chain.M
+	}
+	var raws []rawEnt
+	heights := map[int64]bool{}
 	c.K.Random.IterateRandomRequestQueue(ctx, func(h int64, reqID []byte, r randomtypes.Request) bool {
-		m := e.reqRecord(r)
-		m["due"] = h
-		// the key's request id must be the id of the stored request
-		if kid := e.reqIDName(ctx, reqID); kid != m["id"] {
-			m["id"] = kid + "!" + m["id"].(string)
-		}
-		pending = append(pending, m)
+		raws = append(raws, rawEnt{h, e.reqIDName(ctx, reqID), e.reqRecord(r)})
+		heights[h] = true
 		return false
 	})
-	if rawCount(randomtypes.RandomRequestQueueKey) != len(pending) {
+	for h := ctx.BlockHeight() - 3; h <= ctx.BlockHeight()+8; h++ {
+		if h > 0 {
+			heights[h] = true
+		}
+	}
+	ident := func(m chain.M) string { return fmt.Sprintf("%v|%v|%v|%v", m["id"], m["txh"], m["oracle"], m["ctx"]) }
+	whole := map[string]int{}
+	if resp, err := c.K.Random.RandomRequestQueue(ctx, &randomtypes.QueryRandomRequestQueueRequest{Height: 0}); err == nil && resp != nil {
+		for _, r := range resp.Requests {
+			whole[ident(e.reqRecord(r))]++
+		}
+	} else {
+		rbBad++
+	}
+	rawLeft := map[string]int{}
+	keyName := map[string]string{}
+	for _, r := range raws {
+		k := fmt.Sprintf("%d|%s", r.due, ident(r.m))
+		rawLeft[k]++
+		keyName[k] = r.kid
+	}
+	hs := make([]int64, 0, len(heights))
+	for h := range heights {
+		hs = append(hs, h)
+	}
+	sort.Slice(hs, func(i, j int) bool { return hs[i] < hs[j] })
+	for _, h := range hs {
+		resp, err := c.K.Random.RandomRequestQueue(ctx, &randomtypes.QueryRandomRequestQueueRequest{Height: h})
+		if err != nil || resp == nil {
+			rbBad++
+			continue
+		}
+		for _, r := range resp.Requests {
+			m := e.reqRecord(r)
+			id := ident(m)
+			k := fmt.Sprintf("%d|%s", h, id)
+			m["due"] = farDown(h)
+			if rawLeft[k] > 0 {
+				rawLeft[k]--
+				// the key's request id must be the id of the stored request
+				if kid := keyName[k]; kid != m["id"] {
+					m["id"] = kid + "!" + m["id"].(string)
+				}
+			} else {
+				rbBad++
+				m["id"] = "?raw!" + m["id"].(string)
+			}
+			if whole[id] > 0 {
+				whole[id]--
+			} else {
+				rbBad++
+				m["id"] = "?all!" + m["id"].(string)
+			}
+			pending = append(pending, m)
+		}
+	}
+	for k, n := range rawLeft {
+		for ; n > 0; n-- { // in the store, not reported under its height
+			rbBad++
+			pending = append(pending, chain.M{"id": "?byheight!" + k, "consumer": "", "reqH": int64(0), "oracle": false,
+				"ctx": "", "cap": int64(0), "txh": "", "due": int64(0)})
+		}
+	}
+	for id, n := range whole {
+		for ; n > 0; n-- { // reported by the whole-queue query only
+			rbBad++
+			pending = append(pending, chain.M{"id": "?onlyall!" + id, "consumer": "", "reqH": int64(0), "oracle": false,
+				"ctx": "", "cap": int64(0), "txh": "", "due": int64(0)})
+		}
+	}
+	if rawCount(randomtypes.RandomRequestQueueKey) != len(raws) {
 		rbBad++
 	}
 
@@ -256,7 +321,7 @@ func (e *randEnv) project(ctx sdk.Context) any {
 }
 
 func randEvent(name, who string) chain.M {
-	return chain.M{"name": name, "who": who, "n": int64(0), "oracle": false, "cap": int64(0), "ctx": "", "kind": "",
+	return chain.M{"name": name, "who": who, "n": int64(0), "oracle": false, "cap": int64(0), "ctx": "", "kind": "", "pay": "",
 		"seed": int64(0), "dt": int64(0), "prov": "", "rank": int64(0), "txh": "", "ok": true, "panic": false, "halt": false, "gen": chain.M{}}
 }
 
@@ -267,6 +332,7 @@ func (e *randEnv) norm(ev chain.M) chain.M {
 	o["cap"] = chain.Num(ev, "cap")
 	o["ctx"] = chain.Str(ev, "ctx")
 	o["kind"] = chain.Str(ev, "kind")
+	o["pay"] = chain.Str(ev, "pay")
 	o["seed"] = chain.Num(ev, "seed")
 	o["dt"] = chain.Num(ev, "dt")
 	return o
@@ -284,23 +350,28 @@ func (e *randEnv) msgOf(ev chain.M) sdk.Msg {
 	case "RequestRandom":
 		var cap sdk.Coins
 		if v := chain.Num(ev, "cap"); v > 0 {
-			cap = sdk.NewCoins(sdk.NewInt64Coin(svcslice.Denom, v))
+			switch chain.Str(ev, "pay") {
+			case "btccap": // a fee cap in another denomination
+				cap = sdk.NewCoins(sdk.NewInt64Coin("btc", v))
+			case "twocap": // ... in two
+				cap = sdk.NewCoins(sdk.NewInt64Coin("btc", 1), sdk.NewInt64Coin(svcslice.Denom, v))
+			default:
+				cap = sdk.NewCoins(sdk.NewInt64Coin(svcslice.Denom, v))
+			}
 		}
-		return &randomtypes.MsgRequestRandom{Consumer: a.Addr.String(), BlockInterval: uint64(chain.Num(ev, "n")),
+		return &randomtypes.MsgRequestRandom{Consumer: a.Addr.String(), BlockInterval: farUp(chain.Num(ev, "n")),
 			Oracle: chain.Bool(ev, "oracle"), ServiceFeeCap: cap}
 	case "Respond":
 		rid := e.svc.RequestID(c.Ctx(), chain.Str(ev, "ctx"), who)
 		msg := &servicetypes.MsgRespondService{RequestId: strings.ToUpper(rid), Provider: a.Addr.String()}
-		switch chain.Str(ev, "kind") {
-		case "seed":
-			msg.Result = `{"code":200,"message":""}`
-			msg.Output = fmt.Sprintf(`{"header":{},"body":{"seed":"%s"}}`, hex.EncodeToString(seedBytes(chain.Num(ev, "seed"))))
-		case "bad":
-			msg.Result = `{"code":200,"message":""}`
-			msg.Output = `{"header":{},"body":{"seed":"xyz"}}`
-		default:
-			msg.Result = `{"code":500,"message":"no entropy"}`
+		pay := chain.Str(ev, "pay")
+		switch pay {
+		case "ridlower":
+			msg.RequestId = strings.ToLower(rid)
+		case "ridshort":
+			msg.RequestId = msg.RequestId[:len(msg.RequestId)-2]
 		}
+		msg.Result, msg.Output = renderSeed(chain.Str(ev, "kind"), pay, chain.Num(ev, "seed"))
 		return msg
 	}
 	return nil
@@ -529,7 +600,14 @@ func randRun(fl *drv.Flags, beh []chain.M, w *chain.TraceWriter) {
 // service batch expired.
 func (e *randEnv) epilogue(w *chain.TraceWriter) {
 	for i := 0; i < 12; i++ {
-		busy := len(e.last["pending"].([]any)) > 0
+		busy := false
+		for _, q := range e.last["pending"].([]any) {
+			if m, ok := q.(chain.M); ok {
+				if due, _ := m["due"].(int64); due < 1<<29 { // (entries next to MaxInt64 never fall due)
+					busy = true
+				}
+			}
+		}
 		for _, c := range e.last["ctx"].(chain.M) {
 			cx := c.(chain.M)
 			if cx["newAt"].(int64) != 0 || cx["expAt"].(int64) != 0 {
@@ -569,40 +647,86 @@ func randRandom(fl *drv.Flags, rng *rand.Rand, w *chain.TraceWriter) {
 	e := newRandEnv(fl)
 	e.start(w)
 	maxN := int(fl.CfgInt("maxn", 3))
-	target := int64(0) // convergence window: many requests of several blocks falling due at one height
+	far := fl.CfgInt("far", 0) == 1 // block intervals next to the largest accepted one (payload.go farK)
+	target := int64(0)              // convergence window: many requests of several blocks falling due at one height
 	for b := 0; b < fl.Len; b++ {
 		begin := randEvent("BeginBlock", "")
 		begin["dt"] = int64(1 + rng.Intn(9))
 		var pending []chain.M
-		// responses to running service requests (the harness plays the providers)
+		// responses to running service requests (the harness plays the providers): seeds written
+		// down in every way payload.go knows, malformed ones of every kind, error results,
+		// answers ValidateBasic must refuse; now and then by another provider or by a consumer
 		ctxs := e.last["ctx"].(chain.M)
+		h := e.last["h"].(int64)
+		anybody := func() string {
+			if rng.Intn(2) == 0 {
+				return e.users[rng.Intn(len(e.users))]
+			}
+			return e.provs[rng.Intn(len(e.provs))]
+		}
+		randomAnswer := func(who, cn string) chain.M {
+			ev := randEvent("Respond", who)
+			ev["ctx"] = cn
+			switch x := rng.Intn(20); {
+			case x < 10:
+				ev["kind"] = "seed"
+				ev["seed"] = int64(rng.Intn(8))
+				if rng.Intn(5) < 2 {
+					ev["pay"] = []string{"upper", "dupbody", "extra", "dupseed", "ridlower"}[rng.Intn(5)]
+				}
+			case x < 13:
+				ev["kind"] = "err"
+				ev["pay"] = []string{"", "", "err400", "errout", "ridshort"}[rng.Intn(5)]
+			case x < 16:
+				ev["kind"] = "bad"
+				ev["pay"] = []string{"", "short", "long", "nonhex", "num", "extraprop", "nobody", "emptybody", "duplastbad"}[rng.Intn(9)]
+			case x < 17:
+				ev["kind"] = "badhex"
+			case x < 18:
+				ev["kind"] = "short"
+			default:
+				ev["kind"] = "seed"
+				ev["seed"] = int64(rng.Intn(8))
+				ev["pay"] = []string{"emptyout", "badresult", "nohdr", "ridshort"}[rng.Intn(4)]
+			}
+			return ev
+		}
 		for _, cn := range chain.SortedKeys(ctxs) {
 			cx := ctxs[cn].(chain.M)
-			for p, rq := range cx["reqs"].(chain.M) {
-				if !rq.(chain.M)["act"].(bool) || rng.Intn(3) == 0 {
+			reqs, _ := cx["reqs"].(chain.M)
+			if len(reqs) == 0 && rng.Intn(5) == 0 {
+				// an early answer: the context waits for its due block, or was started by this block's
+				// begin-blocker and gets its request only at the end of the block
+				pending = append(pending, randomAnswer(anybody(), cn))
+			}
+			for _, p := range chain.SortedKeys(reqs) {
+				rq, _ := reqs[p].(chain.M)
+				lastChance := rq["exp"] == h
+				if rq["act"] != true {
+					if rng.Intn(6) == 0 { // a second answer
+						pending = append(pending, randomAnswer(p, cn))
+					}
+					continue
+				}
+				if (!lastChance && rng.Intn(3) == 0) || (lastChance && rng.Intn(6) == 0) {
 					continue
 				}
 				who := p
-				if rng.Intn(8) == 0 {
+				switch x := rng.Intn(24); {
+				case x < 3:
 					who = e.provs[rng.Intn(len(e.provs))]
+				case x == 3:
+					who, _ = cx["consumer"].(string)
+					if _, ok := e.c.Accts[who]; !ok {
+						who = p
+					}
+				case x == 4:
+					who = anybody()
 				}
-				ev := randEvent("Respond", who)
-				ev["ctx"] = cn
-				switch x := rng.Intn(10); {
-				case x < 6:
-					ev["kind"] = "seed"
-					ev["seed"] = int64(rng.Intn(8))
-				case x < 8:
-					ev["kind"] = "err"
-				default:
-					ev["kind"] = "bad"
-				}
+				ev := randomAnswer(who, cn)
 				pending = append(pending, ev)
 				if rng.Intn(6) == 0 { // a second answer to the same request
-					ev2 := chain.CopyM(ev)
-					ev2["gen"] = chain.M{}
-					ev2["kind"] = "seed"
-					ev2["seed"] = int64(rng.Intn(8))
+					ev2 := randomAnswer(who, cn)
 					pending = append(pending, ev2)
 				}
 			}
@@ -611,9 +735,7 @@ func randRandom(fl *drv.Flags, rng *rand.Rand, w *chain.TraceWriter) {
 		if rng.Intn(5) == 0 && e.svc.NCtx > 0 {
 			cn := fmt.Sprintf("c%d", 1+rng.Int63n(e.svc.NCtx))
 			if _, alive := ctxs[cn]; !alive {
-				ev := randEvent("Respond", e.provs[rng.Intn(len(e.provs))])
-				ev["ctx"], ev["kind"], ev["seed"] = cn, "seed", int64(rng.Intn(8))
-				pending = append(pending, ev)
+				pending = append(pending, randomAnswer(e.provs[rng.Intn(len(e.provs))], cn))
 			}
 		}
 		// requests; now and then a burst falling due at one height
@@ -625,21 +747,37 @@ func randRandom(fl *drv.Flags, rng *rand.Rand, w *chain.TraceWriter) {
 			u := e.users[rng.Intn(len(e.users))]
 			ev := randEvent("RequestRandom", u)
 			ev["n"] = int64(rng.Intn(maxN + 1))
-			if rng.Intn(15) == 0 {
+			switch x := rng.Intn(30); {
+			case x < 2:
 				// a block interval of 2^64 - k: its due height overflows (refused since beca1b5;
 				// accepted, it would be queued under a past height for ever)
 				ev["n"] = -int64(1 + rng.Intn(3))
+			case x < 5 && far:
+				// intervals at and around the largest accepted one (due height MaxInt64; logged
+				// minus MaxInt64 - 2^30): k <= 0 accepted, k > 0 refused
+				ev["n"] = int64(1<<30) - h + int64([]int{0, 0, -1, -1 - rng.Intn(1000), 1, 2}[rng.Intn(6)])
+			case x == 5 && rng.Intn(2) == 0:
+				ev["n"] = int64(0)
 			}
 			if rng.Intn(3) == 0 {
 				ev["oracle"] = true
 				ev["cap"] = e.price + int64(rng.Intn(5)) - 1
-				if rng.Intn(10) == 0 {
+				switch rng.Intn(12) {
+				case 0:
 					ev["cap"] = int64(0)
+				case 1:
+					ev["cap"] = int64(30 + rng.Intn(30)) // often more than the consumer has
+				case 2:
+					ev["pay"] = []string{"btccap", "twocap"}[rng.Intn(2)]
+				}
+			} else if rng.Intn(12) == 0 {
+				ev["cap"] = e.price // a fee cap on a block-hash request is ignored
+				if rng.Intn(3) == 0 {
+					ev["pay"] = "btccap"
 				}
 			}
 			pending = append(pending, ev)
 		}
-		h := e.last["h"].(int64)
 		if target < h && rng.Intn(6) == 0 {
 			target = h + int64(maxN) + int64(rng.Intn(3))
 		}
